@@ -25,12 +25,12 @@ type c14ChainCase struct {
 const c14RuleChain = "the event itself is allowed by the auth events the provider returns for it, and its auth chain contains a faulted event: one the auth rules reject, one the provider fails on, one the provider does not have, or a substituted one"
 
 func init() {
-	vfRapid("C14/auth-chain", c14RuleChain, 500, 12000, 8, c14GenChain, c14CheckChain)
-	vfRapid("C14/auth-at-state", "the event's auth events are not all part of the provided state (or the short-circuit is not permitted), so the state before the event decides", 500, 12000, 8, c14GenAtState, c14CheckAtState)
+	vfRapid("C14/auth-chain", c14RuleChain, 1200, 24000, 8, c14GenChain, c14CheckChain)
+	vfRapid("C14/auth-at-state", "the event's auth events are not all part of the provided state (or the short-circuit is not permitted), so the state before the event decides", 1200, 24000, 8, c14GenAtState, c14CheckAtState)
 }
 
 func c14GenChain(t *rapid.T) c14ChainCase {
-	w := c14GenWorld(t, 8, 24)
+	w := c14GenWorld(t, 5, 24)
 	r := w.r
 	c := c14ChainCase{Version: r.Version}
 	// targets: prefer events of the tainted branch that their own auth events allow
@@ -325,10 +325,10 @@ func c14SortedKeys(st map[string]int) []string {
 }
 
 func c14GenAtState(t *rapid.T) c14AtStateCase {
-	w := c14GenWorld(t, 8, 24)
+	w := c14GenWorld(t, 5, 24)
 	r := w.r
 	c := c14AtStateCase{Version: r.Version}
-	c.Target = rapid.IntRange(1, len(r.Events)-1).Draw(t, "target")
+	c.Target = rapid.IntRange(0, len(r.Events)-1).Draw(t, "target")
 	c.State = c14GenStateFor(t, w, c.Target)
 	c.IDsMode = rapid.SampledFrom([]string{"ok", "ok", "ok", "ok", "ok", "ok", "ok", "error"}).Draw(t, "idsMode")
 	c.EvMode = rapid.SampledFrom([]string{"ok", "ok", "ok", "ok", "ok", "ok", "error"}).Draw(t, "evMode")
